@@ -5,6 +5,7 @@ package resolver
 import (
 	"context"
 	"fmt"
+	"regexp"
 	"strings"
 	"testing"
 	_ "unsafe" // go:linkname
@@ -29,7 +30,12 @@ import (
 //   internal/wrr random WRR whose package-private random source is set to the op's draw.
 //
 // The configuration is built up by ops (see coq/model/XdsRoute.v `step`):
-//   [10 pk ci hasF f act | path]   new route          [11 kind inv a | name | arg]  header matcher on last route
+//   [10 pk ci hasF f act | path]   new route (pk 1 exact, 0 prefix)   [9 hasF f act | re...] new route with a regex path
+//   [11 kind inv a b | name | arg]  header matcher on last route (kinds of coq/model/Matchers.v: 1..4 and 7..10
+//        exact/prefix/suffix/contains StringMatch (7..10: ignore_case = a), 5 RangeMatch [a,b), 6 PresentMatch(a))
+//   [8 inv | name | re...] RegexMatch header matcher on last route
+//   [18 | regex | substitution] regex rewrite on the last hash policy of the last route
+//   [19 | name] the last route names a cluster specifier plugin     [25 | regex | subst | in | out] rewrite table entry, obs out
 //   [12 w] weighted cluster on last route               [13 chan term | name]        hash policy on last route
 //   [14] clear routes   [15] new virtual host   [16 | domain] domain on last vhost   [17] clear vhosts
 //   [20 | k | v] outgoing md   [21 | k | v] extra md   [22] extra md attached (maybe empty)   [23] clear md
@@ -168,37 +174,130 @@ func vXdsRouteExec(cfg []int64, ops [][]int64) ([][]int64, bool, []string) {
 			}
 			s.routes = append(append([]*xdsresource.Route{}, s.routes...), rt)
 			s.dirty = true
-		case 11:
-			if len(op) < 4 || len(s.routes) == 0 {
+		case 11, 8:
+			if len(s.routes) == 0 {
 				break
 			}
-			name, arg, ok := vXdsRoute2(op[4:])
-			if !ok {
-				break
-			}
-			inv := op[2] != 0
-			h := &xdsresource.HeaderMatcher{Name: name, InvertMatch: &inv}
-			switch op[1] {
-			case 0:
-				p := op[3] != 0
-				h.PresentMatch = &p
-			case 1:
-				sm := matcher.NewExactStringMatcher(arg, false)
-				h.StringMatch = &sm
-			case 2:
-				sm := matcher.NewPrefixStringMatcher(arg, false)
-				h.StringMatch = &sm
-			case 3:
-				sm := matcher.NewSuffixStringMatcher(arg, false)
-				h.StringMatch = &sm
-			default:
-				sm := matcher.NewContainsStringMatcher(arg, false)
-				h.StringMatch = &sm
+			var h *xdsresource.HeaderMatcher
+			if op[0] == 8 {
+				if len(op) < 2 {
+					break
+				}
+				name, rest, ok := vXdsRouteStr(op[2:])
+				if !ok {
+					break
+				}
+				pat, rest2, ok := vXdsRouteRe(rest)
+				if !ok || len(rest2) != 0 {
+					break
+				}
+				re, err := matcher.CompileSafeRegex(pat)
+				if err != nil {
+					panic("CompileSafeRegex(" + pat + "): " + err.Error())
+				}
+				inv := op[1] != 0
+				h = &xdsresource.HeaderMatcher{Name: name, InvertMatch: &inv, RegexMatch: re}
+			} else {
+				if len(op) < 5 {
+					break
+				}
+				name, arg, ok := vXdsRoute2(op[5:])
+				if !ok {
+					break
+				}
+				inv := op[2] != 0
+				h = &xdsresource.HeaderMatcher{Name: name, InvertMatch: &inv}
+				ic := op[1] >= 7 && op[3] != 0
+				switch op[1] {
+				case 5:
+					h.RangeMatch = &xdsresource.Int64Range{Start: op[3], End: op[4]}
+				case 6:
+					p := op[3] != 0
+					h.PresentMatch = &p
+				case 1, 7:
+					sm := matcher.NewExactStringMatcher(arg, ic)
+					h.StringMatch = &sm
+				case 2, 8:
+					sm := matcher.NewPrefixStringMatcher(arg, ic)
+					h.StringMatch = &sm
+				case 3, 9:
+					sm := matcher.NewSuffixStringMatcher(arg, ic)
+					h.StringMatch = &sm
+				default:
+					sm := matcher.NewContainsStringMatcher(arg, ic)
+					h.StringMatch = &sm
+				}
 			}
 			rt := *s.routes[len(s.routes)-1]
 			rt.Headers = append(append([]*xdsresource.HeaderMatcher{}, rt.Headers...), h)
 			s.routes[len(s.routes)-1] = &rt
 			s.dirty = true
+		case 9:
+			if len(op) < 4 {
+				break
+			}
+			pat, rest, ok := vXdsRouteRe(op[4:])
+			if !ok || len(rest) != 0 {
+				break
+			}
+			re, err := matcher.CompileSafeRegex(pat)
+			if err != nil {
+				panic("CompileSafeRegex(" + pat + "): " + err.Error())
+			}
+			rt := &xdsresource.Route{Regex: re, ActionType: xdsresource.RouteActionType(op[3])}
+			if op[1] != 0 {
+				f := uint32(op[2])
+				rt.Fraction = &f
+			}
+			s.routes = append(append([]*xdsresource.Route{}, s.routes...), rt)
+			s.dirty = true
+		case 18:
+			re, sub, ok := vXdsRoute2(op[1:])
+			if !ok || len(s.routes) == 0 {
+				break
+			}
+			rt := *s.routes[len(s.routes)-1]
+			if len(rt.HashPolicies) == 0 {
+				break
+			}
+			cre, err := regexp.Compile(re)
+			if err != nil {
+				panic("hash policy regex: " + err.Error())
+			}
+			hps := append([]*xdsresource.HashPolicy{}, rt.HashPolicies...)
+			hp := *hps[len(hps)-1]
+			hp.Regex, hp.RegexSubstitution = cre, sub
+			hps[len(hps)-1] = &hp
+			rt.HashPolicies = hps
+			s.routes[len(s.routes)-1] = &rt
+			s.dirty = true
+		case 19:
+			name, ok := vXdsRoute1(op[1:])
+			if !ok || len(s.routes) == 0 {
+				break
+			}
+			i := len(s.routes) - 1
+			rt := *s.routes[i]
+			rt.ClusterSpecifierPlugin = ""
+			if name != "" {
+				rt.ClusterSpecifierPlugin = fmt.Sprintf("r%d.%s", i, name)
+			}
+			s.routes[i] = &rt
+			s.dirty = true
+		case 25:
+			re, rest, ok := vXdsRouteStr(op[1:])
+			if !ok {
+				break
+			}
+			sub, rest, ok := vXdsRouteStr(rest)
+			if !ok {
+				break
+			}
+			in, _, ok2 := vXdsRoute2(rest)
+			if !ok2 {
+				break
+			}
+			o = vBytes([]byte(regexp.MustCompile(re).ReplaceAllString(in, sub)))
 		case 12:
 			if len(op) != 2 || len(s.routes) == 0 {
 				break
@@ -315,8 +414,18 @@ func vXdsRouteExec(cfg []int64, ops [][]int64) ([][]int64, bool, []string) {
 				break
 			}
 			var ri, ci int64
+			var tail []int64
 			name := clustermanager.PickedCluster(res.Context)
-			if _, e := fmt.Sscanf(name, "cluster:r%dc%d", &ri, &ci); e != nil {
+			if strings.HasPrefix(name, clusterSpecifierPluginPrefix) {
+				rest := strings.TrimPrefix(name, clusterSpecifierPluginPrefix)
+				dot := strings.Index(rest, ".")
+				if _, e := fmt.Sscanf(rest[:dot], "r%d", &ri); e != nil {
+					panic("unexpected plugin cluster name " + name)
+				}
+				ci = -1
+				tail = vBytes([]byte(rest[dot+1:]))
+				tagset["plugin"] = true
+			} else if _, e := fmt.Sscanf(name, "cluster:r%dc%d", &ri, &ci); e != nil {
 				panic("unexpected cluster name " + name)
 			}
 			h, _ := iringhash.XDSRequestHash(res.Context)
@@ -327,10 +436,10 @@ func vXdsRouteExec(cfg []int64, ops [][]int64) ([][]int64, bool, []string) {
 				res.OnCommitted()
 			}
 			if h == h2 && h2 == h3 {
-				o = []int64{0, ri, ci, 1, int64(h)}
+				o = vCat([]int64{0, ri, ci, 1, int64(h)}, tail)
 				tagset["hash"] = true
 			} else {
-				o = []int64{0, ri, ci, 0, 0}
+				o = vCat([]int64{0, ri, ci, 0, 0}, tail)
 			}
 			nt = true
 			tagset["select-ok"] = true
@@ -359,12 +468,77 @@ func vXdsRouteExec(cfg []int64, ops [][]int64) ([][]int64, bool, []string) {
 	return obs, nt, tags
 }
 
+// vXdsRouteRe renders the prefix-encoded regex AST of coq/model/Matchers.v to RE2 syntax:
+// 0 eps, 1 c literal, 2 any, 3 a b concatenation, 4 a b alternation, 5 a star.
+func vXdsRouteRe(w []int64) (string, []int64, bool) {
+	if len(w) == 0 {
+		return "", nil, false
+	}
+	switch w[0] {
+	case 0:
+		return "(?:)", w[1:], true
+	case 1:
+		if len(w) < 2 {
+			return "", nil, false
+		}
+		return regexp.QuoteMeta(string(rune(w[1]))), w[2:], true
+	case 2:
+		return ".", w[1:], true
+	case 3, 4:
+		a, r1, ok := vXdsRouteRe(w[1:])
+		if !ok {
+			return "", nil, false
+		}
+		b, r2, ok := vXdsRouteRe(r1)
+		if !ok {
+			return "", nil, false
+		}
+		if w[0] == 3 {
+			return "(?:" + a + ")(?:" + b + ")", r2, true
+		}
+		return "(?:" + a + "|" + b + ")", r2, true
+	case 5:
+		a, r1, ok := vXdsRouteRe(w[1:])
+		if !ok {
+			return "", nil, false
+		}
+		return "(?:" + a + ")*", r1, true
+	}
+	return "", nil, false
+}
+
 // ---------------------------------------------------------------- generator
+
+// regex ASTs: literal string, literal string followed by .*, alternation of two literals
+func vXdsRouteLit(s string) []int64 {
+	if s == "" {
+		return []int64{0}
+	}
+	if len(s) == 1 {
+		return []int64{1, int64(s[0])}
+	}
+	return vCat([]int64{3, 1, int64(s[0])}, vXdsRouteLit(s[1:]))
+}
+func vXdsRouteGenRe(r *vRand, words []string) []int64 {
+	a := vXdsRouteLit(words[r.Intn(len(words))])
+	switch r.Intn(4) {
+	case 0:
+		return a
+	case 1:
+		return vCat([]int64{3}, a, []int64{5, 2})
+	case 2:
+		return vCat([]int64{4}, a, vXdsRouteLit(words[r.Intn(len(words))]))
+	}
+	return vCat([]int64{3}, []int64{5, 2}, a)
+}
+
+// hash-policy regex rewrites (regexp.Compile, unanchored) used by the generator
+var vXdsRouteRewrites = [][2]string{{"a", "X"}, {"^(a*)", "${1}${1}-"}, {"[,0-9]", ""}}
 
 func vXdsRouteB(s string) []int64 { return vBytes([]byte(s)) }
 
 var vXdsRouteHdrNames = []string{"k", "x-a", "tr-bin", "content-type"}
-var vXdsRouteHdrVals = []string{"", "a", "ab", "abc", "b", "a,b", "1"}
+var vXdsRouteHdrVals = []string{"", "a", "ab", "abc", "b", "a,b", "1", "AB", "aA", "5", "-1", "10"}
 var vXdsRoutePaths = []string{"", "/", "/s", "/s/", "/s/m", "/S/M", "/s/m2", "/t/m"}
 var vXdsRouteHosts = []string{"", "a", "a.b", "a.b.c", "b.c", "x.a.b", "a.b.x", "ab"}
 var vXdsRouteDoms = []string{"*", "a.b", "*.b", "*b", "a.*", "a*", "*.b.c", "a.b.*", "a.b.c", "x.a.b", "ab", "**", "*a.b"}
@@ -383,7 +557,8 @@ func vXdsRouteBoundary(r *vRand, f int64) int64 {
 	}
 }
 
-func vXdsRouteGenRoutes(r *vRand, n int) (ops [][]int64, fracs []int64) {
+func vXdsRouteGenRoutes(r *vRand, n int) (ops [][]int64, fracs []int64, polNames map[string]bool, rewrites map[[2]string]bool) {
+	polNames, rewrites = map[string]bool{}, map[[2]string]bool{}
 	for i := 0; i < n; i++ {
 		pk := int64(r.Intn(2))
 		path := vXdsRoutePaths[r.Intn(len(vXdsRoutePaths))]
@@ -404,12 +579,24 @@ func vXdsRouteGenRoutes(r *vRand, n int) (ops [][]int64, fracs []int64) {
 		if r.Chance(8) {
 			act = r.PickI64(0, 2)
 		}
-		ops = append(ops, vCat([]int64{10, pk, ci, hf, f, act}, vXdsRouteB(path)))
+		if r.Chance(15) {
+			ops = append(ops, vCat([]int64{9, hf, f, act}, vXdsRouteGenRe(r, vXdsRoutePaths)))
+		} else {
+			ops = append(ops, vCat([]int64{10, pk, ci, hf, f, act}, vXdsRouteB(path)))
+		}
 		for k := r.PickInt(0, 0, 0, 1, 1, 2); k > 0; k-- {
-			kind := int64(r.Intn(5))
-			ops = append(ops, vCat([]int64{11, kind, int64(r.Intn(2)), int64(r.Intn(2))},
-				vXdsRouteB(vXdsRouteHdrNames[r.Intn(len(vXdsRouteHdrNames))]),
-				vXdsRouteB(vXdsRouteHdrVals[r.Intn(len(vXdsRouteHdrVals))])))
+			name := vXdsRouteHdrNames[r.Intn(len(vXdsRouteHdrNames))]
+			kind := int64(1 + r.Intn(11))
+			if kind == 11 {
+				ops = append(ops, vCat([]int64{8, int64(r.Intn(2))}, vXdsRouteB(name), vXdsRouteGenRe(r, vXdsRouteHdrVals)))
+				continue
+			}
+			a, b := int64(r.Intn(2)), int64(r.Intn(12))
+			if kind == 5 {
+				a = int64(r.Intn(8)) - 2
+			}
+			ops = append(ops, vCat([]int64{11, kind, int64(r.Intn(2)), a, b},
+				vXdsRouteB(name), vXdsRouteB(vXdsRouteHdrVals[r.Intn(len(vXdsRouteHdrVals))])))
 		}
 		nc := 1 + r.Intn(4)
 		if r.Chance(5) {
@@ -429,14 +616,26 @@ func vXdsRouteGenRoutes(r *vRand, n int) (ops [][]int64, fracs []int64) {
 			if r.Chance(25) {
 				ty = 1
 			}
-			ops = append(ops, vCat([]int64{13, ty, vB(r.Chance(30))}, vXdsRouteB(vXdsRouteHdrNames[r.Intn(len(vXdsRouteHdrNames))])))
+			pn := vXdsRouteHdrNames[r.Intn(len(vXdsRouteHdrNames))]
+			if ty == 0 {
+				polNames[pn] = true
+			}
+			ops = append(ops, vCat([]int64{13, ty, vB(r.Chance(30))}, vXdsRouteB(pn)))
+			if r.Chance(35) {
+				rw := vXdsRouteRewrites[r.Intn(len(vXdsRouteRewrites))]
+				rewrites[rw] = true
+				ops = append(ops, vCat([]int64{18}, vXdsRouteB(rw[0]), vXdsRouteB(rw[1])))
+			}
+		}
+		if r.Chance(15) {
+			ops = append(ops, vCat([]int64{19}, vXdsRouteB([]string{"p", "plug-a", "", "x.y"}[r.Intn(4)])))
 		}
 	}
 	return
 }
 
 // md ops plus the xxhash table entries of every joined value the hash can use
-func vXdsRouteGenMD(r *vRand) [][]int64 {
+func vXdsRouteGenMD(r *vRand, polNames map[string]bool, rewrites map[[2]string]bool) [][]int64 {
 	ops := [][]int64{{23}}
 	var md, emd [][2]string
 	for k := r.Intn(6); k > 0; k-- {
@@ -455,6 +654,9 @@ func vXdsRouteGenMD(r *vRand) [][]int64 {
 	seen := map[string]bool{}
 	for _, m := range [][][2]string{md, emd} {
 		for _, name := range vXdsRouteHdrNames {
+			if !polNames[name] {
+				continue // only headers named by a hash policy need table entries
+			}
 			var vs []string
 			for _, kv := range m {
 				if kv[0] == name {
@@ -468,6 +670,17 @@ func vXdsRouteGenMD(r *vRand) [][]int64 {
 			if !seen[j] {
 				seen[j] = true
 				ops = append(ops, vCat([]int64{24, int64(xxhash.Sum64String(j))}, vXdsRouteB(j)))
+			}
+			for _, rw := range vXdsRouteRewrites {
+				if !rewrites[rw] {
+					continue
+				}
+				out := regexp.MustCompile(rw[0]).ReplaceAllString(j, rw[1])
+				ops = append(ops, vCat([]int64{25}, vXdsRouteB(rw[0]), vXdsRouteB(rw[1]), vXdsRouteB(j), vXdsRouteB(out)))
+				if !seen[out] {
+					seen[out] = true
+					ops = append(ops, vCat([]int64{24, int64(xxhash.Sum64String(out))}, vXdsRouteB(out)))
+				}
 			}
 		}
 	}
@@ -551,6 +764,42 @@ func vXdsRouteGen(r *vRand, tier string, idx int) ([]int64, [][]int64) {
 				}
 			}
 		}
+	case idx == 5:
+		// header matcher table through routes: every matcher kind RouteToMatcher can build x invert
+		// x boundary arguments, one route each, evaluated (op 4: every route; op 3: first match)
+		// on metadata values at the boundaries
+		ops = append(ops, []int64{14})
+		route := func(h []int64) {
+			ops = append(ops, vCat([]int64{10, 0, 0, 0, 0, 1}, vXdsRouteB("")), h, []int64{12, 1})
+		}
+		for inv := int64(0); inv < 2; inv++ {
+			for kind := int64(1); kind <= 10; kind++ {
+				switch {
+				case kind == 5:
+					for _, rg := range [][2]int64{{1, 5}, {5, 10}, {-1, 1}, {5, 5}} {
+						route(vCat([]int64{11, 5, inv, rg[0], rg[1]}, vXdsRouteB("k"), vXdsRouteB("")))
+					}
+				case kind == 6:
+					route(vCat([]int64{11, 6, inv, 0, 0}, vXdsRouteB("k"), vXdsRouteB("")))
+					route(vCat([]int64{11, 6, inv, 1, 0}, vXdsRouteB("k"), vXdsRouteB("")))
+				default:
+					for _, arg := range []string{"ab", "AB", "a", ""} {
+						route(vCat([]int64{11, kind, inv, 0, 0}, vXdsRouteB("k"), vXdsRouteB(arg)))
+						if kind >= 7 {
+							route(vCat([]int64{11, kind, inv, 1, 0}, vXdsRouteB("k"), vXdsRouteB(arg)))
+						}
+					}
+				}
+			}
+			route(vCat([]int64{8, inv}, vXdsRouteB("k"), []int64{3, 1, 'a', 5, 2}))
+		}
+		for _, vs := range [][]string{nil, {""}, {"ab"}, {"AB"}, {"aB", "c"}, {"a"}, {"-1"}, {"1"}, {"5"}, {"10"}, {"4", "5"}, {"+5"}, {"05"}} {
+			ops = append(ops, []int64{23})
+			for _, v := range vs {
+				ops = append(ops, vCat([]int64{20}, vXdsRouteB("k"), vXdsRouteB(v)))
+			}
+			ops = append(ops, vCat([]int64{4, 7}, vXdsRouteB("/s/m")), vCat([]int64{3, 7, 0}, vXdsRouteB("/s/m")))
+		}
 	case idx%4 == 0:
 		// virtual hosts, with occasional invalid patterns; every second list is a random
 		// arrangement of 3-7 patterns that all match the queried host
@@ -574,10 +823,10 @@ func vXdsRouteGen(r *vRand, tier string, idx int) ([]int64, [][]int64) {
 	default:
 		for k := 0; k < 4; k++ {
 			ops = append(ops, []int64{14})
-			ro, fracs := vXdsRouteGenRoutes(r, 1+r.Intn(4))
+			ro, fracs, polNames, rewrites := vXdsRouteGenRoutes(r, 1+r.Intn(4))
 			ops = append(ops, ro...)
 			for j := 0; j < 5; j++ {
-				ops = append(ops, vXdsRouteGenMD(r)...)
+				ops = append(ops, vXdsRouteGenMD(r, polNames, rewrites)...)
 				for q := 0; q < 3; q++ {
 					t := r.I64n(1000000)
 					if len(fracs) > 0 && r.Chance(70) {
